@@ -12,9 +12,17 @@
     (Panic 601 / 631 of the model; `assert_eq!` in parsed_packet.rs) and leave exactly the parse of the pointer-free
     bytes, marked as not compressed, cache empty (C08_recompute_is_fresh_parse, C08_insert_prologue_is_fresh_parse);
     this rests on C08_decompression_keeps_edns_summary: the pointer-free packet is parsed to the same EDNS summary;
-    (ii) shape/frame lemmas of the other operations the invariant proof will rest on. *)
+    (ii) from ANY state: when [recompute] (on an object marked as possibly compressed) or the rename wrapper
+    succeeds, the object holds exactly the bytes that were parsed and its section offsets, EDNS offset, option count,
+    extended rcode, version and flags are those of that parse, cache empty (C08_recompute_view, C08_rename_view; the
+    payload size is carried over, it is not part of the implementation's assertion);
+    (iii) [insert_rr] of a well-formed pointer-free non-OPT record into any record section of a freshly parsed
+    object leaves a view equal to the fresh parse of the new bytes in every field (C08_insert_view; the full effect is
+    C09_insert_effect);
+    (iv) shape/frame lemmas of the other operations the invariant proof will rest on. *)
 From DV Require Import Model.Base Model.NameCheck Model.Parser Model.Header Model.Readers Model.Uncompress
-  Model.Mutate Proofs.Hoare Proofs.HeaderBits Proofs.InsertLemmas Proofs.EdnsPlain.
+  Model.Mutate Model.Compress Model.Renamer Spec.PacketSpec Spec.RecordSpec Spec.PlainSpec Proofs.Hoare Proofs.HeaderBits Proofs.InsertLemmas Proofs.EdnsPlain Proofs.WalkSkip
+  Proofs.ViewAfter Proofs.InsertSpec.
 
 Theorem C08_decompression_keeps_edns_summary : forall p v q v',
   bytes_ok p -> parse p = Ok v -> uncompress p = Ok q -> parse q = Ok v' ->
@@ -66,3 +74,37 @@ Theorem C08_insert_shape : forall sec rr v it s',
     (N.of_nat (length (pp_packet v) + length rr) <= 8192)%N /\ snd s' = it.
 Proof. exact insert_core_ok. Qed.
 Print Assumptions C08_insert_shape.
+
+Theorem C08_recompute_view : forall v it s', pp_maybe_compressed v = true -> m_recompute (v, it) = (s', Ok tt) ->
+  exists u f, uncompress (pp_packet v) = Ok u /\ parse u = Ok f /\ view_of_parse (fst s') f u /\
+              pp_maybe_compressed (fst s') = false /\ snd s' = it.
+Proof. exact recompute_view. Qed.
+Print Assumptions C08_recompute_view.
+
+Theorem C08_rename_view : forall target source sfx v it s', m_rename target source sfx (v, it) = (s', Ok tt) ->
+  exists r f, renamer_rename v target source sfx = Ok r /\ parse r = Ok f /\ view_of_parse (fst s') f r /\
+              pp_maybe_compressed (fst s') = true /\ snd s' = it.
+Proof. exact rename_view. Qed.
+Print Assumptions C08_rename_view.
+
+Example C08_view_of_parse_means : forall w f b, view_of_parse w f b <->
+  pp_packet w = b /\
+  pp_offset_question w = pp_offset_question f /\ pp_offset_answers w = pp_offset_answers f /\
+  pp_offset_nameservers w = pp_offset_nameservers f /\ pp_offset_additional w = pp_offset_additional f /\
+  pp_offset_edns w = pp_offset_edns f /\ pp_edns_count w = pp_edns_count f /\ pp_ext_rcode w = pp_ext_rcode f /\
+  pp_edns_version w = pp_edns_version f /\ pp_ext_flags w = pp_ext_flags f /\ pp_cached w = None.
+Proof. intros. reflexivity. Qed.
+
+Theorem C08_insert_view : forall p v it sec rx s',
+  bytes_ok p -> parse p = Ok v -> plain_rr_ok rx -> sec = SAnswer \/ sec = SNameServers \/ sec = SAdditional ->
+  (sec <> SAdditional -> exists w, u16_at p 2 w /\ N.land w 32768 = 32768%N) ->
+  m_insert_rr sec (plain_record rx) (v, it) = (s', Ok tt) ->
+  exists f, parse (pp_packet (fst s')) = Ok f /\
+    pp_offset_question (fst s') = pp_offset_question f /\ pp_offset_answers (fst s') = pp_offset_answers f /\
+    pp_offset_nameservers (fst s') = pp_offset_nameservers f /\ pp_offset_additional (fst s') = pp_offset_additional f /\
+    pp_offset_edns (fst s') = pp_offset_edns f /\ pp_edns_count (fst s') = pp_edns_count f /\
+    pp_ext_rcode (fst s') = pp_ext_rcode f /\ pp_edns_version (fst s') = pp_edns_version f /\
+    pp_ext_flags (fst s') = pp_ext_flags f /\ pp_max_payload (fst s') = pp_max_payload f /\
+    pp_maybe_compressed (fst s') = false /\ pp_cached (fst s') = None.
+Proof. exact insert_fresh_view. Qed.
+Print Assumptions C08_insert_view.
